@@ -49,7 +49,36 @@ Print Assumptions C12_falling_edge_iff_increment.
    following machine cycles: TIMA reads 0 for exactly the overflow cycle and is then reloaded from TMA; a TIMA
    write in the overflow cycle cancels the reload; in the reload cycle TIMA writes are ignored and TMA writes
    also load TIMA; afterwards writes behave normally; no second interrupt request at the reload. *)
-Theorem C12_reload_window : reload_window_stmt.
+Theorem C12_reload_window :
+  forall t0 t1, timer_tick t0 = (t1, true) ->
+  (* TIMA reads 0 after the overflow *)
+  timer_read_tima t1 = 0 /\
+  (* (A) no TIMA write in the overflow cycle *)
+  (forall w1, all_writes w1 -> last_wtima w1 = None ->
+     let t1' := timer_run t1 (map op_of w1) in
+     let t2 := fst (timer_tick t1') in
+     timer_read_tima t1' = 0 /\                                   (* still 0 after that cycle's writes *)
+     snd (timer_tick t1') = false /\                              (* no second interrupt request *)
+     timer_read_tima t2 = timer_read_tma t1' /\                   (* then reloaded from TMA as it is then *)
+     (forall w2, all_writes w2 ->
+        let t2' := timer_run t2 (map op_of w2) in
+        let t3 := fst (timer_tick t2') in
+        (* reload cycle: TIMA writes ignored, TMA writes also load TIMA *)
+        timer_read_tima t2' = (match last_wtma w2 with Some v => v | None => timer_read_tima t2 end) /\
+        (* the cycle after: TIMA writes take effect again, TMA writes leave TIMA alone *)
+        (forall w3, all_writes w3 ->
+           timer_read_tima (timer_run t3 (map op_of w3)) =
+           (match last_wtima w3 with Some v => v | None => timer_read_tima t3 end)))) /\
+  (* (B) a TIMA write in the overflow cycle cancels the reload *)
+  (forall w1 v, all_writes w1 -> last_wtima w1 = Some v ->
+     let t1' := timer_run t1 (map op_of w1) in
+     let t2 := fst (timer_tick t1') in
+     timer_read_tima t1' = v /\
+     snd (timer_tick t1') = false /\
+     timer_read_tima t2 = v /\                                    (* not reloaded *)
+     (forall w2, all_writes w2 ->                                  (* and no reload cycle follows *)
+        timer_read_tima (timer_run t2 (map op_of w2)) =
+        (match last_wtima w2 with Some u => u | None => v end))).
 Proof. exact reload_window. Qed.
 Print Assumptions C12_reload_window.
 
